@@ -49,7 +49,8 @@ Definition sobserve_m (a : sgraph) : list (list Z) :=
      else map (fun i => rowsum a (mval a i)) vs ++ map (fun i => rowsum a (mval a i)) vs ++ map (fun j => rowsum a (fun i => mval a i j)) vs ++ map (fun j => rowsum a (fun i => mval a i j)) vs);
     (if und then map (fun e => cell true (fst e) (snd e)) (pairs n) ++ map (fun e => cell false (fst e) (snd e)) (pairs n)
      else map (fun e => mval a (fst e) (snd e)) (pairs n));
-    zn (length (se a)) :: map (fun e => b2z ((if und then Nat.leb (fst e) (snd e) else true) && smem e a)) (pairs n) ].
+    zn (length (se a)) :: map (fun e => b2z ((if und then Nat.leb (fst e) (snd e) else true) && smem e a)) (pairs n);
+    map Z.of_nat (seq 0 n) ++ [1; 1; zbool (Nat.eqb (length (se a)) 0)] ].
 Fixpoint mspec_trace (a : sgraph) (ops : list mop) : list (option (list (list Z))) :=
   match ops with [] => [] | o :: ops' =>
     match m_rejected_code a o with
@@ -86,7 +87,8 @@ Definition sobserve_w (a : sgraph) : list (list Z) :=
     (if und then map (fun e => cell true (fst e) (snd e)) (pairs n) ++ map (fun e => cell false (fst e) (snd e)) (pairs n)
      else map (fun e => c (fst e) (snd e)) (pairs n));
     map (fun e => mval a (fst e) (snd e)) (pairs n);
-    zn (length (se a)) :: map (fun e => b2z ((if und then Nat.leb (fst e) (snd e) else true) && smem e a)) (pairs n) ].
+    zn (length (se a)) :: map (fun e => b2z ((if und then Nat.leb (fst e) (snd e) else true) && smem e a)) (pairs n);
+    map Z.of_nat (seq 0 n) ++ [1; 1; zbool (Nat.eqb (length (se a)) 0)] ].
 Fixpoint wspec_trace (a : sgraph) (ops : list wop) : list (option (list (list Z))) :=
   match ops with [] => [] | o :: ops' =>
     match w_rejected_code a o with
